@@ -58,7 +58,7 @@ func genHSPath(t *rapid.T) HSPath {
 	c.Secure = rapid.Bool().Draw(t, "secure")
 	c.HandshakeTimeoutMs = rapid.SampledFrom([]int{0, 0, 30000, 60000, 3600000}).Draw(t, "hto")
 	c.CtxDeadlineMs = rapid.SampledFrom([]int{0, 0, 45000, 50000, 7200000}).Draw(t, "ctx")
-	c.Negative = rapid.SampledFrom([]string{"", "", "", "bad-ws-reply", "bad-ext-reply", "proxy-refusal", "bad-cert", "proxy-chatty", "alpn-h2"}).Draw(t, "negative")
+	c.Negative = rapid.SampledFrom([]string{"", "", "", "bad-ws-reply", "bad-ext-reply", "proxy-refusal", "bad-cert", "proxy-chatty", "alpn-h2", "unoffered-subprotocol"}).Draw(t, "negative")
 	c.Refusal = rapid.IntRange(0, len(refusals)-1).Draw(t, "refusal")
 	if c.Path == "upgrade" {
 		c.PreBuffered = rapid.SampledFrom([]int{0, 0, 5, 40}).Draw(t, "prebuf")
@@ -132,6 +132,9 @@ func (c HSPath) peerSpec() (PeerSpec, bool, *url.URL) {
 		if spec.ProxyKind == "http" || spec.ProxyKind == "https" {
 			spec.ProxyReply = "HTTP/1.1 200 Connection established\r\n\r\n\r\n"
 		}
+	case "unoffered-subprotocol":
+		// a valid 101 that selects a subprotocol nobody asked for
+		spec.ReplyHeader = "Sec-WebSocket-Protocol: surprise"
 	case "alpn-h2":
 		// the application's tls.Config (shared with an http.Transport, say)
 		// offers h2 and the backend selects it
@@ -241,7 +244,8 @@ func checkC16(c HSPath, o *Obs) error {
 		o.NonTrivial("negative")
 		return nil
 	}
-	if base.err != nil && (c.Negative == "proxy-chatty" || c.Negative == "alpn-h2") {
+	eitherWay := c.Negative == "proxy-chatty" || c.Negative == "alpn-h2" || c.Negative == "unoffered-subprotocol"
+	if base.err != nil && eitherWay {
 		// giving up is allowed here; leaking the connection is not
 		if closed == 0 {
 			return fmt.Errorf("%s: handshake given up (%s: %v) but the dialed network connection was not closed (%d operations logged) - connection leak", c.Path, c.Negative, base.err, len(ops))
@@ -252,7 +256,7 @@ func checkC16(c HSPath, o *Obs) error {
 	if base.err != nil {
 		return fmt.Errorf("%s: fault-free Dial failed: %v (peer: %v)", c.Path, base.err, base.log.Errors)
 	}
-	if c.Negative == "proxy-chatty" || c.Negative == "alpn-h2" {
+	if eitherWay {
 		o.Class("negative_" + c.Negative + "_went_on")
 	}
 	if closed != 0 {
